@@ -290,10 +290,11 @@ class WCS(GWCSAPIMixin):
             backward = self.forward_transform.inverse
         except NotImplementedError as err:
             raise NotImplementedError("Could not construct backward transform. \n{0}".format(err))
-        try:
-            backward.inverse
-        except NotImplementedError:  # means "hasattr" won't work
-            backward.inverse = self.forward_transform
+        # The inverse of the backward transform is the forward transform. Do not
+        # rely on the inverse computed from the pieces of ``backward``: a
+        # user-supplied inverse may have an inverse of its own which differs
+        # from the step it was attached to.
+        backward.inverse = self.forward_transform
         return backward
 
     def _get_frame_index(self, frame):
